@@ -109,5 +109,32 @@ claim('C19',
       'injected death; oracle on the kernel spawn log (priority blocks, no interleaving, per-watcher and global pacing, autostart).',
       WORLD_NOTE)
 
-for _p in ['C07', 'C08', 'C16', 'C17']:
-    na(_p, WIP)
+claim('C07',
+      'Daemon-side half only. Bounded symbolic execution with REAL CircusSocket objects (unix + inet, so_reuseport) whose bind / listen / close calls are '
+      'counted: eight watcher variants (reference in cmd / args / upper case / both syntaxes / two sockets / no use_sockets / stdin_socket only / reuseport) x '
+      'K<=2 events over worker generations; per spawn the argv given to Popen carries the fileno of THE daemon socket, the descriptor is reachable '
+      '(close_fds False or listed in pass_fds, inheritable), sockets keep their fd, are bound and listening exactly once and never closed; watchers '
+      'without use_sockets get close_fds=True.',
+      WORLD_NOTE + 'Trusted, not checked: that a real child finds the socket at that descriptor (POSIX close_fds / inheritable semantics).')
+claim('C08',
+      'Daemon-side half only. Bounded symbolic execution of the REAL circusd.main() (argument parsing, pid file, Arbiter.load_from_config, the '
+      'blocking loop.start() on the virtual-time loop, finally-block) with real managed sockets and pid file: trigger {quit, quit waiting, SIGTERM, '
+      'SIGINT, SIGQUIT} delivered 1-3 times at any kernel call or right after a request that starts an exclusive operation, obedient / stubborn workers: '
+      'exit 0, no child left, zmq and managed sockets closed, unix socket file and pid file gone, bounded time. Pid-file protocol over structured '
+      'contents x liveness {own, live, dead, EPERM}.',
+      WORLD_NOTE + 'Signals are delivered by calling the real handler; real signal delivery, the exit status seen by a parent and daemonize() are '
+      'outside. One listed known finding (signal dropped while an operation is in flight).')
+claim('C16',
+      'Differential check of config.get_config against a model-level reader over a generator of ini files (presence and every order of [env], '
+      '[env:w1], [env:w*], [env:LIST] sections defining the same variable, recurring patterns, copy_env, references in five places and three syntaxes, '
+      '[env] values and include paths referring to os.environ, five groups of typed options, an included file). The solver enumerates the generator '
+      'exhaustively through selector variables; the parser itself runs on concrete text.',
+      'Weakest use of the technique here (stated in DESIGN.md): symbolic text cannot pass configparser soundly under CrossHair, so nothing is ranged. '
+      'Outside: ini syntax beyond the generated grammar.',
+      technique='CrossHair/z3 path enumeration over selector variables driving a differential oracle (no symbolic text)')
+claim('C17',
+      'Daemon-side half only. Bounded symbolic execution of the real Redirector on fake pipes with a lowest-free fd allocator: two workers (optionally '
+      'with a helper child keeping the pipes open), stdout+stderr captured, K<=3 (thorough 4) events from {write n bytes around the 1024-byte buffer, '
+      'loop turns, close a pipe, death + respawn, sibling killed by request}; per (pid, channel) the delivered bytes equal the written bytes (order, once, '
+      'label), a blocking read is a violation, EOF is read once per pipe, no fd of a dead worker stays open or tracked.',
+      WORLD_NOTE + 'Trusted: real pipe / epoll semantics. Output still unread when a worker is killed is not claimed.')
